@@ -453,7 +453,7 @@ def run_violin_case(ctx, case):
 # ------------------------------------------------------------------ driver ----
 def run(ctx):
     rng = ctx.rng(1)
-    nrep = 60 if ctx.tier == "quick" else 500
+    nrep = 60 if ctx.tier == "quick" else 2500
     for it0 in range(nrep):
         it = it0 + ctx.shard * 5
         if ctx.out_of_time():
